@@ -671,6 +671,10 @@ def run(prog, rep, tier):
         _os.path.join(prog.repo, 'tenpy', 'models', '*.py')) if not p_.endswith('__init__.py'))
     check_undefined_attrs(prog, rep, sorted(set(['tenpy/models/model.py', 'tenpy/networks/terms.py'] +
                                                 predefined)))
+    from ..flow import check_carried_flags
+    rep.rule('LOOP-carried-flag', 'a flag set under a test inside a loop body and read there is '
+             're-initialised per iteration')
+    check_carried_flags(prog, rep, ['tenpy/models/model.py', 'tenpy/networks/terms.py'])
     return rep.finish(
         level='other',
         explanation='plus_hc / explicit_plus_hc protocol decided for %d sibling add_* methods of '
